@@ -529,6 +529,7 @@ def replay(ctx: Ctx, path: str) -> None:
     c.n = read_log(os.path.join(d, "log"))[2] or c.n
     run_case(c, src, base, S.project_init(src) if src else {"entries": [], "reach": []}, pre)
     judge_directory(ctx, c, pre, post)
+    judge(ctx, [c.trace], [c.name], C03_INV, "Trace_FS replay", prop_prefix="model:", ancestors=False)
     jf = os.path.join(base, "jobs.json")
     with open(jf, "w") as f:
         json.dump([c.root], f)
